@@ -34,7 +34,7 @@ DRIVER_MAIN = r'''
 #include <exception>
 #include <sys/mman.h>
 struct FsvArg { int kind; int es; long n; int align; };   // kind 0 in-buffer, 1 out/inout buffer, 2 scalar
-struct FsvCase { const char* id; void (*k)(void**, unsigned long long*); void (*r)(void**, unsigned long long*); int nargs; FsvArg args[12]; };
+struct FsvCase { const char* id; void (*k)(void**, unsigned long long*); void (*r)(void**, unsigned long long*); int nargs; FsvArg args[20]; };
 extern FsvCase fsv_cases[]; extern int fsv_ncases;
 extern "C" void fsv_assume(int) {}
 static int hexv(char c){ return c<='9'? c-'0' : (c|32)-'a'+10; }
@@ -44,7 +44,7 @@ int main(){
         std::istringstream is(line); int ci; std::string which; int mis;
         if(!(is >> ci >> which >> mis)) continue;
         FsvCase& c = fsv_cases[ci];
-        void* p[12]; unsigned long long sc[12]; std::vector<char*> bases; std::vector<size_t> sizes;
+        void* p[20]; unsigned long long sc[20]; std::vector<char*> bases; std::vector<size_t> sizes;
         for (int a=0;a<c.nargs;++a){
             std::string tok; is >> tok;
             if (c.args[a].kind==2){ sc[a]=strtoull(tok.c_str(),nullptr,16); p[a]=nullptr; bases.push_back(nullptr); sizes.push_back(0); continue; }
